@@ -211,6 +211,9 @@ class SchemaValidationContext:
         if not default_input:
             return
 
+        if not is_input_type(input_value.type):
+            return  # already reported, the default value cannot be validated
+
         errors: list[tuple[GraphQLError, list[str | int]]] = []
         validate_default_input(
             default_input,
